@@ -7,47 +7,47 @@ ROOT = os.path.dirname(os.path.dirname(os.path.abspath(__file__)))
 CHECKS = {
  "C01": ("srvsim", "exploration",
          "deterministic simulation: whole server stepped on one thread under a seeded scheduler; connection ledger oracle",
-         "Seeded search over interleavings of client connects, accept-loop iterations, worker polls, connection completions, pause/resume and stop on the real ServerBuilder/Server/Accept/ServerWorker code (1..3 workers, TCP+UDS listeners, limits 1..3); every accepted connection is tracked from accept to service call (right listener's service, exactly once, none lost while a worker lives, queued ones closed on shutdown). Sampling, not proof.",
+         "Seeded search over interleavings of client connects, accept-loop iterations, worker polls, connection completions, pause/resume and stop on the real ServerBuilder/Server/Accept/ServerWorker code (1..3 workers, TCP+UDS listeners, limits 1..3; in part of the runs worker kills, service readiness scripts and bursts of 40/70 connections); every accepted connection is tracked from accept to service call (right listener's service, exactly once, none lost while a worker lives, queued ones closed on shutdown). Sampling, not proof.",
          "Trusts the stepping hooks (one real loop iteration per step), the harness services and kernel loopback ordering; OS threads are replaced by simulator tasks, so only the modelled send->inc window is explored below loop-iteration granularity.", "§4.4 C01"),
  "C02": ("srvsim", "exploration",
          "deterministic simulation: seeded schedules incl. worker progress inside the send->increment window; per-worker in-progress invariant",
-         "Invariant `dispatched - finished <= max_concurrent_connections` per worker checked after every simulator action and at every service call entry, over seeded schedules of the real server in which workers may run between the channel send and the counter increment; limits 1..4, 1..3 workers. Sampling, not proof.",
-         "Fault-free runs only (the property's own proviso). Same trusted base as C01.", "§4.4 C02"),
+         "Invariant `dispatched - finished <= max_concurrent_connections` per worker checked after every simulator action and at every service call entry, over seeded schedules of the real server in which workers may run between the channel send and the counter increment, with pause/resume and service readiness scripts (Pending and failing readiness, i.e. service restarts); limits 1..4, 1..3 workers. Sampling, not proof.",
+         "Judged up to the first worker fault of a history (the property's own proviso). Same trusted base as C01.", "§4.4 C02"),
  "C03": ("srvsim", "exploration",
          "deterministic simulation: liveness judged at quiescent states of the stepped server (no enabled internal action)",
-         "At every quiescent state reached by seeded schedules (all wake-ups processed, no timer, not paused) no client may be waiting on a listener while a worker in the rotation has spare capacity; real epoll edge-triggering, waker queue and counters. No step or time bound enters the oracle. Sampling, not proof.",
+         "At every quiescent state reached by seeded schedules (all wake-ups processed, no timer, not paused) no client may be waiting on a listener while a worker in the rotation has spare capacity; real epoll edge-triggering, waker queue and counters; workloads include worker kills, readiness scripts, bursts of 40/70 connections and worker progress inside the window where the accept loop resets its waker queue. No step or time bound enters the oracle. Sampling, not proof.",
          "Same trusted base as C01; quiescence is defined by the simulator's enabled-action set.", "§4.4 C03"),
  "C04": ("srvsim", "exploration",
          "deterministic simulation: dispatch-history oracle over seeded schedules + model comparison of the availability bit set",
-         "Dispatch log of seeded fault-free schedules: every window of W consecutive dispatches made while the accept loop's own view had all W workers available goes to W distinct workers, and no dispatch targets a saturated worker; worker counts up to 512 in the thorough tier; the real availability bit set is additionally driven with seeded set/get histories over indices 0..512 against a boolean-array model. Sampling, not proof.",
+         "Dispatch log of seeded fault-free schedules: every window of W consecutive dispatches made while the accept loop's own view had all W workers available goes to W distinct workers, the rotation cursor moves only inside accept_one (one step per served or skipped handle, reference cursor), and no dispatch targets a saturated worker (judged on the fault-free prefix; the rotation rules restart at every membership change); worker counts up to 512 in the thorough tier; the real availability bit set is additionally driven with seeded set/get histories over indices 0..512 against a boolean-array model. Sampling, not proof.",
          "The rotation rule is judged against the accept loop's own availability view (reported by a hook at each accept_one iteration).", "§4.4 C04"),
  "C05": ("srvsim", "fault_enumeration",
          "deterministic simulation with fault injection: accept errors of each kind and pause/resume storms, inserted at every position of sampled histories",
-         "Injected accept errors (EMFILE, ENFILE, ENOBUFS, ENOMEM, ECONNABORTED, ECONNRESET, ECONNREFUSED) replacing real accepts, pause/resume command storms, virtual-clock advances, on TCP and Unix-domain listeners; random schedules plus fault-point sweeps (each fault kind at every position of sampled fault-free histories). Oracles: nothing accepted once a pause has taken effect, per-connection errors arm no back-off, and after faults stop every listener accepts a fresh client. Sampling of histories; enumeration of fault points within them.",
+         "Injected accept errors (EMFILE, ENFILE, ENOBUFS, ENOMEM, ECONNABORTED, ECONNRESET, ECONNREFUSED) replacing real accepts, pause/resume command storms, virtual-clock advances, on TCP and Unix-domain listeners; random schedules plus fault-point sweeps (each fault kind at every position of sampled fault-free histories). Oracles: nothing accepted once a pause has taken effect, per-connection errors arm no back-off, the loop's poll timeout never exceeds the earliest back-off deadline of any listener, and after faults stop every listener accepts a fresh client. Sampling of histories; enumeration of fault points within them.",
          "Fault injection happens at the top of MioListener::accept (the pending connection stays queued in the kernel); the 500 ms back-off is only bounded from above.", "§4.4 C05"),
  "C06": ("srvsim", "fault_enumeration",
          "deterministic simulation: stop commands and real signals at every position of sampled histories under a virtual clock",
-         "stop(graceful/forced), repeated stops, dropped stop futures and real SIGTERM/SIGINT/SIGQUIT raised in-process, at random points and swept over every position of sampled histories with 0..3 connections in progress and completion before/at/after shutdown_timeout in virtual time. Oracles: graceful never completes while a worker is busy before the timeout; forced completes with zero clock advance; every stop future and the Server future resolve; nothing is dispatched afterwards.",
+         "stop(graceful/forced), repeated and late stops, dropped stop futures, shutdown_timeout 0..5 s, the accept loop and workers running between the server's two stop notifications, and real SIGTERM/SIGINT/SIGQUIT raised in-process, at random points and swept over every position of sampled histories with 0..3 connections in progress and completion before/at/after shutdown_timeout in virtual time. Oracles: graceful never completes while a worker is busy before the timeout; forced completes with zero clock advance; every stop future and the Server future resolve; nothing is dispatched afterwards.",
          "A signal and a stop command are not mixed in one run (the multiplexer's poll order would decide which is effective). The blocking join of the accept thread is replaced by driving the stepped loop.", "§4.4 C06"),
  "C07": ("srvsim", "exploration",
          "deterministic simulation: scripted service readiness (Ok/Pending/Err) flipped by simulator actions; event-log oracle",
-         "Per-worker log of poll_ready results and call entries from scripted harness services under seeded schedules: each call is immediately preceded by one Ready(Ok) from every service of the worker; a failed readiness check re-creates exactly that service from its factory (factories needing 0..2 polls), failed instances are never reused, and every queued connection is served once readiness returns.",
+         "Per-worker log of poll_ready results and call entries from scripted harness services under seeded schedules: each call is immediately preceded by one Ready(Ok) from every service of the worker; a failed readiness check re-creates exactly that service from its factory (factories needing 0..2 polls), failed instances are never reused, and every queued connection (also bursts of 40/70) is served once readiness returns.",
          "Readiness flips always wake the stored waker (a flip without a wake would be an illegal service).", "§4.4 C07"),
  "C08": ("srvsim", "fault_enumeration",
          "deterministic simulation with fault injection: worker death at every point of sampled histories, late teardown, replacement through the real WorkerFaulted path",
-         "Workers killed (future dropped, or panic inside a service call) at random points and swept over every position of sampled histories; their outstanding connections complete arbitrarily late (stale availability notifications); the replacement is started by the real ServerInner::handle_cmd. Oracles: the accept loop never panics or spins, no connection is dropped while a handle remains, a failed send removes the handle at once, every discovered fault is answered by a replacement with the same index that rejoins the rotation and serves, fresh clients are served at the end.",
+         "Workers killed (future dropped, or panic inside a service call) at random points and swept over every position of sampled histories; their outstanding connections complete arbitrarily late (stale availability notifications); the replacement is started by the real ServerInner::handle_cmd. Oracles: the accept loop never panics or spins, no connection is dropped while a handle remains, a failed send removes the handle at once, every discovered fault is answered by a replacement with the same index that rejoins the rotation and serves (also when it arrives during a pause), no live rotation member with spare capacity stays unavailable, fresh clients are served at the end.",
          "Worker death is modelled as the ServerWorker future being dropped (as when its thread unwinds); at most two kills per run.", "§4.4 C08"),
  "C09": ("rtsim", "exploration",
          "deterministic simulation: real actix-rt threads under a baton scheduler with seeded choice of who runs next",
-         "Seeded programs of arbiter life-cycle operations, spawns and system stops executed on real OS threads (real System, SystemController, Arbiter, tokio runtimes, thread-locals) with exactly one registered thread running at a time; every scheduling decision (runtime ticks, arbiter creation/registration/ready/deregistration points, every iteration of the arbiter and controller loops) is drawn from the seed and recorded. Oracle: run_with_code returns the code of the first stop in global issue order, and every arbiter whose creation had returned before that stop ends its loop and joins. A fair round-robin phase precedes any liveness verdict. Sampling, not proof.",
+         "Seeded programs of arbiter life-cycle operations, spawns and system stops executed on real OS threads (real System, SystemController, Arbiter, tokio runtimes, thread-locals) with exactly one registered thread running at a time; every scheduling decision (runtime ticks, arbiter creation/registration/ready/deregistration points, every iteration of the arbiter and controller loops) is drawn from the seed and recorded. Oracle: run_with_code returns the code of the first stop in global issue order, and every arbiter whose creation had returned before that stop — or that was registered when the controller took any later Exit off its channel (reference model of the command channel) — ends its loop and joins; run returns even while an arbiter is stuck in a synchronous task. A fair round-robin phase precedes any liveness verdict. Sampling, not proof.",
          "Interleaving granularity is runtime tick + hook points (no preemption inside tokio internals); the only randomised container in actix-rt (the controller's HashMap) is not owned by the simulator: if a change makes behaviour depend on its order, the violation is reported as unstable (best-effort replay).", "§5"),
  "C10": ("rtsim", "exploration",
          "deterministic simulation: same baton scheduler; per-arbiter command log vs queue model",
-         "Every task sent to an arbiter (fn / future / pending / panicking / self-stopping / cross-spawning, through the owner, a cloned handle or Arbiter::current()) logs its first poll; checked: first-poll order equals send order per arbiter, at most one start, the arbiter's own thread, System::current()/Arbiter::current() identity, nothing sent after an explicit stop() starts, spawn/stop report false after join() returned, join() does not return before the thread ended, block_on returns its future's value, a panicking task does not end the arbiter. Sampling, not proof.",
+         "Every task sent to an arbiter (fn / future / pending / panicking / self-stopping / cross-spawning, through the owner, a cloned handle or Arbiter::current()) logs its first poll; checked: first-poll order equals send order per arbiter, at most one start, the arbiter's own thread, System::current()/Arbiter::current() identity (also on a thread that hosted another System before; Arbiter::current() inside a running task accepts commands), nothing sent after an explicit stop() starts, spawn/stop report false once the event loop has returned and after join(), join() does not return before the thread ended, block_on returns its future's value, a panicking task does not end the arbiter. Sampling, not proof.",
          "At-most-once (commands behind a Stop may legitimately never start). Joins run on a helper thread without the baton and become schedulable when the joined thread has ended.", "§5"),
  "C11": ("svcsim", "exploration",
          "deterministic simulation: random combinator trees over scripted leaves under a strict-wake executor vs a tree interpreter",
-         "Random combinator expression trees (depth <= 3, service and factory forms, type-erased with the crate's own boxed wrappers, plus fixed un-erased nestings) over scripted leaf services/factories whose futures advance only by simulator actions; the result value with its trace, the exact sequence of inner calls, one build per inner factory with the supplied config and the first init error are compared with a small tree interpreter (poll-level reference model for factory futures). Sampling, not proof.",
+         "Random combinator expression trees (depth <= 3, service and factory forms, type-erased with the crate's own boxed wrappers, plus fixed un-erased nestings) over scripted leaf services/factories whose futures advance only by simulator actions, with the service optionally dropped while calls are in flight and one nesting that re-enters its own RefCell handle; the result value with its trace, the exact sequence of inner calls, one build per inner factory with the supplied config and the first init error are compared with a small tree interpreter (poll-level reference model for factory futures). Sampling, not proof.",
          "Trusts the interpreter (reference composition) and the scripted leaves; values are traced vectors so each mapper application is visible.", "§6.1"),
  "C12": ("svcsim", "exploration",
          "deterministic simulation: same trees, fresh waker identity per poll; waker-coverage and poll-discipline oracles",
@@ -55,15 +55,15 @@ CHECKS = {
          "Leaves wake only when the simulator advances their script (a flip without a wake is never generated).", "§6.1"),
  "C13": ("iosim", "fault_enumeration",
          "deterministic simulation with fault injection: scripted read chunking, Pending placement, one read error, EOF; reference = same codec on the undivided stream",
-         "Byte streams (short ones over a delimiter-rich alphabet; long ones crossing the 1 KiB / 8 KiB marks incl. frames larger than 8 KiB) are delivered to the real Framed through a simulator-owned transport in seeded chunkings with Pending wherever it is polled dry, optionally one transient read error, then EOF; the item sequence must equal what the same codec yields on the undivided stream (LinesCodec, length-prefixed test codec; BytesCodec by concatenation), the injected error must surface exactly once and lose nothing. Fault-free and fault-injecting configurations are separate.",
+         "Byte streams (short ones over a delimiter-rich alphabet; long ones crossing the 1 KiB / 8 KiB marks incl. frames larger than 8 KiB) are delivered to the real Framed through a simulator-owned transport in seeded chunkings with Pending wherever it is polled dry, optionally one read error (ConnectionReset / Interrupted / TimedOut), then EOF, with optional mid-stream rebuilds of the Framed; the item sequence (frames and decode errors, decoding continues behind an error) must equal what the same codec yields on the undivided stream (LinesCodec, length-prefixed test codec with and without an end-of-stream frame from the empty buffer; BytesCodec by concatenation), the injected error must surface exactly once, and whenever the stream returns Pending or that error every item complete in the bytes read before has been yielded. Fault-free and fault-injecting configurations are separate.",
          "The reference is deliberately the codec itself on the whole buffer (C13 is about arrival independence, not about what a codec decodes).", "§6.2"),
  "C14": ("iosim", "fault_enumeration",
          "deterministic simulation with fault injection: scripted write results (k bytes / Pending / zero / error), flush and shutdown results; byte-ledger oracle",
-         "Item sequences with sizes straddling 1 KiB and 8 KiB are pushed through the real Framed Sink face while the transport script returns short writes, Pending, zero-length writes and errors, and flush/shutdown return Ok/Pending/Err, in any interleaving of poll_ready/start_send/poll_flush/poll_close under strict-wake; after every call the transport bytes are a prefix of the concatenated encodings, flush/close success implies nothing buffered (and shutdown done), poll_ready exerts back-pressure at the high-water mark, zero writes surface as WriteZero, errors are not swallowed, Pending has a transport cause.",
+         "Item sequences with sizes straddling 1 KiB and 8 KiB are pushed through the real Framed Sink face while the transport script returns short writes (also runs of 20-40 small accepts in one call), Pending, zero-length writes, EINTR and errors, the Framed is optionally rebuilt with bytes buffered (replace_codec / into_map_codec / into_map_io / into_parts+from_parts), and flush/shutdown return Ok/Pending/Err, in any interleaving of poll_ready/start_send/poll_flush/poll_close under strict-wake; after every call the transport bytes are a prefix of the concatenated encodings, flush/close success implies nothing buffered (and shutdown done), poll_ready exerts back-pressure at the high-water mark, zero writes surface as WriteZero, errors are not swallowed, Pending has a transport cause.",
          "After an injected error only the prefix invariant is kept (run ends).", "§6.2"),
  "C16": ("chansim", "exploration",
          "deterministic simulation: seeded operation interleavings under a strict-wake executor vs FIFO reference model",
-         "Seeded search over operation histories (send / Sink send / clone / drop / close / poll / sender-from-receiver / drop receiver) of the real local-channel, every operation compared with a FIFO queue model and every wake-up obligation checked against counting wakers; sampling (millions of short histories per run), not proof.",
+         "Seeded search over operation histories (send / Sink send / clone / drop / close / poll / sender-from-receiver / drop receiver, bursts of 33-100 sends and receives) of the real local-channel, every operation compared with a FIFO queue model and every wake-up obligation checked against counting wakers; sampling (millions of short histories per run), not proof.",
          "Trusts the harness model (about 40 lines) and the strict-wake executor; single-threaded use only (types are !Send).", "§6.3"),
  "C17": ("chansim", "exploration",
          "deterministic simulation: seeded guard/query histories under a strict-wake executor vs counter model",
@@ -71,11 +71,11 @@ CHECKS = {
          "Trusts the counter/slot model in the harness; single-threaded use only.", "§6.3"),
  "C18": ("tlssim", "fault_enumeration",
          "deterministic simulation with fault injection: in-memory duplex, hand-driven rustls client peer, paused clock; stall / garbage / disconnect / reset at any flight",
-         "Up to 5 concurrent accept calls on the real rustls-0.23 and OpenSSL AcceptorService (from the configured acceptor or its clone, 1..2 services sharing the per-thread limit 1..3) over a simulator-owned duplex; the client is a hand-driven rustls ClientConnection (TLS 1.2/1.3) whose flights are delivered whole, split, byte-wise or never, or replaced by garbage, EOF or reset; the virtual clock is advanced in steps around the 0.1..5 s timeout. Oracles: outcome is a stream, a TLS error (only after a client fault) or Timeout (never before the deadline); no call stays pending and un-woken past its deadline; poll_ready is Pending iff handshakes in progress == limit and the refused task is woken when one ends or is cancelled; payloads up to 64 KiB arrive unchanged both ways, also under transport back-pressure.",
+         "Up to 5 concurrent accept calls on the real rustls-0.23 and OpenSSL AcceptorService (from the configured acceptor or its clone, 1..2 services — optionally one of each backend — sharing the per-thread limit 1..3) over a simulator-owned duplex; the client is a hand-driven rustls ClientConnection (TLS 1.2/1.3) whose flights are delivered whole, split, byte-wise or never, or replaced by garbage, EOF or reset; the virtual clock is advanced in steps around the 0.1..5 s timeout. Oracles: outcome is a stream, a TLS error (only after a client fault) or Timeout (never before the deadline); no call stays pending and un-woken past its deadline; poll_ready is Pending iff handshakes in progress == limit and the refused task is woken when one ends or is cancelled; payloads up to 64 KiB (bulk mode: 70-130 KB against a stalled client) arrive unchanged both ways, also under transport back-pressure, through plain and vectored writes, and everything written before a completed server-side shutdown reaches the client.",
          "rustls 0.20-0.22 and native-tls acceptors are not exercised; handshake bytes contain fresh randomness, so replay is exact at the level of actions and outcomes.", "§7.1"),
  "C19": ("tlssim", "fault_enumeration",
          "deterministic simulation: scripted resolvers, live/closed loopback ports in every combination, TLS peers with right/wrong/untrusted certificates over the in-memory duplex",
-         "Resolution precedence and ordered fallback of the real Connector / Resolver / TcpConnector services over kernel loopback: address lists of length 0..4 (each entry live or a reserved closed port, IPv4/IPv6), host strings with/without port, IP literals, non-numeric port text, pre-set One/Multi addresses, set_port, local bind address, default resolver (localhost) or scripted resolver (list / empty / error after 0..2 Pending polls); outcome, dialled address, accept counters of every listener and the resolver call log are compared with a precedence model. TLS connector services (rustls 0.23, OpenSSL) against a hand-driven rustls server whose certificate covers / does not cover the host, comes from an untrusted CA or lists only an IP: success iff the certificate is valid for hostname(); payload round trip afterwards.",
+         "Resolution precedence and ordered fallback of the real Connector / Resolver / TcpConnector services over kernel loopback: address lists of length 0..4 (each entry live or a reserved closed port, IPv4/IPv6), host strings with/without port, IP literals, non-numeric port text, pre-set One/Multi addresses, set_port (equal to or different from the host's port), seeded numeric order of the ports, services obtained directly or through their factories, local bind address, default resolver (localhost) or scripted resolver (list / empty / error after 0..2 Pending polls); outcome, dialled address, accept counters of every listener, the resolver call log and the error of the last address when all fail are compared with a precedence model. TLS connector services (rustls 0.23, OpenSSL) against a hand-driven rustls server whose certificate covers / does not cover the host, comes from an untrusted CA or lists only an IP: success iff the certificate is valid for hostname(); payload round trip afterwards.",
          "Connect timing (slow SYN, half-open) cannot be simulated on kernel loopback; other connector versions are not exercised.", "§7.2"),
 }
 ENGINES = [
